@@ -1447,6 +1447,14 @@ func (s *Translator) buildTailProjection() error {
 		// If there are expressions in the order by of the current query part they will need to be visited to ensure
 		// that frame references are rewritten
 		for _, orderByExpression := range currentPart.SortItems {
+			// A sort key may read a field of a path, e.g. size(relationships(p)). Like the projection and
+			// the constraints, it must be resolved against what materializes the path.
+			if resolvedSortKey, err := resolvePathCompositeFieldReferences(s.scope, orderByExpression.Expression); err != nil {
+				return err
+			} else {
+				orderByExpression.Expression = resolvedSortKey
+			}
+
 			if err := RewriteFrameBindings(s.scope, orderByExpression); err != nil {
 				return err
 			}
